@@ -38,8 +38,9 @@ def run(tier, replay=None):
 
     def xz_all():
         scns, res, meta, runs = contlib.family_xz(ctx, j, quick, random.Random(seed), pool, cap=250 if quick else 3000, nrand=30 if quick else 300)
-        contlib.validate_xz_runs(ctx, j, runs, pool)
-        return scns
+        mscns, mres, mruns = contlib.family_xz_many(ctx, j, quick, random.Random(seed + 7), pool)
+        contlib.validate_xz_runs(ctx, j, runs + mruns, pool)
+        return scns + mscns
 
     def lz_all():
         scns, res, runs = contlib.family_lzip(ctx, j, quick, random.Random(seed + 1), pool, cap=150 if quick else 2000)
